@@ -949,7 +949,14 @@ class AgentSchedulingComponent(rpu.AgentComponent):
 
                 for name in to_raptor:
 
-                    tasks = to_raptor[name]
+                    # a cancel request may have overtaken these tasks on their
+                    # way here (the backlog did not hold them yet).  This is
+                    # checked under the lock: a request which is handled later
+                    # finds the tasks in the backlog.
+                    tasks = [task for task in to_raptor[name]
+                                  if self.is_canceled(task) is not True]
+                    if not tasks:
+                        continue
 
                     if name in self._raptor_queues:
                         # forward to specified raptor queue
